@@ -148,13 +148,13 @@ let show_sitems (items : sitem list) =
     | SShort -> "E:Short") items)
 
 let views2_one h =
-  Printf.sprintf "length=%s len=%s empty=%s fam=%d ab=%s tb=%s asb=%s alen=%s aempty=%s u16=%s vc=%s fp=%s tl=%s te=%s"
+  Printf.sprintf "length=%s len=%s empty=%s fam=%d ab=%s tb=%s asb=%s alen=%s aempty=%s u16=%s vc=%s fp=%s tl=%s te=%s disp=%s"
     (nstr (h_length h)) (nstr (h_len h)) (b01 (h_is_empty h)) (fam_idx (h_address_family h))
     (hexs (h_address_bytes h)) (hexs (h_tlv_bytes h)) (hexs (h_as_bytes h))
     (nstr (addresses_len h.haddresses)) (b01 (addresses_is_empty h.haddresses))
     (nstr (family_to_u16 (h_address_family h)))
     (nstr (version_or_command h.hcommand)) (nstr (protocol_or_family h.hprotocol (h_address_family h)))
-    (nstr (tlvs_len (h_tlv_bytes h))) (b01 (tlvs_is_empty (h_tlv_bytes h)))
+    (nstr (tlvs_len (h_tlv_bytes h))) (b01 (tlvs_is_empty (h_tlv_bytes h))) (hexs (h_display h))
 
 let show_auto r =
   (match r with RV1 r -> "V1 " ^ show_v1b r | RV2 r -> "V2 " ^ show_v2 r)
@@ -269,8 +269,13 @@ let payload_of (s : string) : payload =
   | "t" -> let (k, v) = split_once ':' rest in PTlv (n_of_int (int_of_string k), mbytes v)
   | "q" -> let (k, v) = split_once ':' rest in PPair (n_of_int (int_of_string k), mbytes v)
   | "Q" -> let (k, v) = split_once ':' rest in PPair (type_code types.(int_of_string k), mbytes v)
-  | "s" -> PSection (mbytes rest)
-  | "S" -> let (_, v) = split_once ':' rest in PSection (mbytes v)   (* iterated n times first: the encoding does not depend on that *)
+  | "s" -> PSection (mbytes rest, N0)
+  | "S" ->
+    (* a section value on which next() was called n times: the cursor the model iterator reaches *)
+    let (n, v) = split_once ':' rest in
+    let v = mbytes v in
+    let rec adv k off = if k = 0 then off else (match tlv_next v off with (_, off') -> adv (k - 1) off') in
+    PSection (v, adv (int_of_string n) N0)
   | "y" -> PType types.(int_of_string rest)
   | k -> failwith ("bad payload kind " ^ k)
 
@@ -323,13 +328,13 @@ let show_rebuild x =
     let want = h.hbytes in
     let ab = h_address_bytes h and tb = h_tlv_bytes h in
     let raw = brun (CNew (vc, afp)) [WritePayload (PBytes ab); WritePayload (PBytes tb)] in
-    let sec = brun (CNew (vc, afp)) [WritePayload (PBytes ab); WritePayload (PSection tb)] in
+    let sec = brun (CNew (vc, afp)) [WritePayload (PBytes ab); WritePayload (PSection (tb, N0))] in
     let items = (match collect tb with Some l -> l | None -> failwith "fuel") in
     let its = if List.for_all item_ok_b items
       then same (brun (CNew (vc, afp)) [WritePayload (PBytes ab); WritePayloads (List.map item_payload_b items)]) want
       else "-" in
     let v = if h_address_family h <> FUnspec
-      then same (brun (CWith (vc, h.hprotocol, h.haddresses)) [WritePayload (PSection tb)]) want
+      then same (brun (CWith (vc, h.hprotocol, h.haddresses)) [WritePayload (PSection (tb, N0))]) want
       else "-" in
     Printf.sprintf "R=%s S=%s I=%s V=%s" (same raw want) (same sec want) its v
 
